@@ -390,25 +390,25 @@ class Gen:
         """One argument value: expression, literal, variable, string, bool."""
         r = self.r
         c = r.random()
-        if c < 0.08 and allow_str:
-            return self.string()
-        if c < 0.14 and allow_str:
-            return r.choice(["True", "False"])
-        if c < 0.20 and allow_str:
-            names = [n for n, t in self.scalars.items() if t in ("bool", "str")]
+        if c < 0.20:
+            if allow_str:
+                if c < 0.08:
+                    return self.string()
+                if c < 0.14:
+                    return r.choice(["True", "False"])
+                names = [n for n, t in self.scalars.items() if t in ("bool", "str")]
+                if names:
+                    return r.choice(names)
+        elif c < 0.30:
+            names = [n for n in self.scalars if self.scalars[n] != "sym" or allow_sym]
             if names:
                 return r.choice(names)
-        if c < 0.30:
-            names = list(self.scalars)
-            if names:
-                n = r.choice(names)
-                if self.scalars[n] != "sym" or allow_sym:
-                    return n
-        if c < 0.30 + self.o["regrefs"] and allow_sym:
-            return self.reg_expr(depth)
-        if c < 0.38 and self.arrays and allow_sym:
-            n = r.choice(list(self.arrays))
-            return n
+        elif c < 0.38:
+            if self.arrays and allow_sym:
+                return r.choice(list(self.arrays))
+        elif c < 0.38 + self.o["regrefs"]:
+            if allow_sym:
+                return self.reg_expr(depth)
         saved = self.o["params"]
         if not allow_sym:
             self.o["params"] = 0.0
@@ -439,8 +439,13 @@ class Gen:
                 op = r.choice(["+", "-", "*", "*", "/"])
                 b = term(d - 1)
                 if op == "/" and self.coin(0.6):
-                    b = self.num_lit("if")
-                return self.binop(term(d - 1), op, b)
+                    b = r.choice(["2", "3", "0.5", "1.5", "4", "pi", "2.5e+1"])
+                a = term(d - 1)
+                if a == b and op in "-/":
+                    op = "+"
+                if op == "*" and (a in ("0", "00", "0.0") or b in ("0", "00", "0.0")):
+                    op = "+"
+                return self.binop(a, op, b)
             if c < 0.85:
                 return "(" + term(d - 1) + ")"
             if c < 0.93:
